@@ -444,7 +444,7 @@ func run(a hx.RunArgs) error {
 		"and on mutated formatter output), fmt/rt (formatDate and parse∘format on valid instants of year 0..9999), delta/addsub (TimeDelta.Add/Sub), " +
 		"datediff/tsdiff (DateDiff/TimestampDiff.Eval), sqlx (SQL function vs. unit function on the real engine); a case is non-trivial when the " +
 		"result is a value (not an error/NULL) and, for parse, at least one numeric field was read; for delta when a month/year part or a day carry is involved"
-	r := hx.NewRand(a.Seed)
+	r := hx.NewRand(mixSeed(a.Seed))
 	ctx := sql.NewEmptyContext()
 	scale := 1
 	if a.Thorough {
@@ -553,7 +553,8 @@ func run(a hx.RunArgs) error {
 		if clamped {
 			out.Stat("addsub:clamped")
 		}
-		if p == "" && !clamped && !res.Equal(t) {
+		mixed := (td.Years != 0 || td.Months != 0) && (td.Days != 0 || td.Hours != 0 || td.Minutes != 0 || td.Seconds != 0 || td.Microseconds != 0)
+		if p == "" && !clamped && !mixed && !res.Equal(t) {
 			tag := "-"
 			mid := fieldsOf(td.Add(t))
 			if td.Years != 0 && td.Months != 0 && ((f.mo == 2 && f.d == 29 && !isLeap(f.y+int(td.Years))) || (mid.mo == 2 && mid.d == 29 && !isLeap(mid.y-int(td.Years)))) {
@@ -846,7 +847,7 @@ func run(a hx.RunArgs) error {
 			td.Days, td.Hours, td.Minutes, td.Seconds, td.Microseconds = int64(r.Intn(40)), int64(r.Intn(30)), int64(r.Intn(70)), int64(r.Intn(70)), int64(r.Intn(2000000))
 		case 9: // API-only: years and months together
 			td.Years, td.Months = small(), int64(r.Range(-30, 30))
-			if r.Bool() {
+			if r.Chance(1, 4) {
 				td.Days = small()
 			}
 		}
@@ -945,6 +946,12 @@ func run(a hx.RunArgs) error {
 		}
 		return t.Format("2006-01-02 15:04:05.000000")
 	}
+	renderDT6 := func(t time.Time) string {
+		if t.Year() < 0 || t.Year() > 9999 {
+			return "NULL"
+		}
+		return t.Format("2006-01-02 15:04:05.000000")
+	}
 	nsql := 300 * scale
 	if nsql > 4000 {
 		nsql = 4000
@@ -986,7 +993,7 @@ func run(a hx.RunArgs) error {
 			fn, res = "DATE_SUB", td.Sub(t1)
 		}
 		sqlx("dateadd", hx.List(fn, ud.unit, fmt.Sprint(n), f1.sexp()),
-			fmt.Sprintf("SELECT %s(CAST('%s' AS DATETIME(6)), INTERVAL %d %s)", fn, dtLit(t1), n, ud.unit), renderDT(res))
+			fmt.Sprintf("SELECT %s(CAST('%s' AS DATETIME(6)), INTERVAL %d %s)", fn, dtLit(t1), n, ud.unit), renderDT6(res))
 		// DATE_FORMAT
 		format := randFormat(r, "cDdefHhIikMmprSsTYyaWjb", r.Range(1, 4))
 		format = strings.NewReplacer("'", "", "\\", "").Replace(format)
@@ -1036,6 +1043,15 @@ func run(a hx.RunArgs) error {
 		}
 	}
 	return nil
+}
+
+// mixSeed decorrelates consecutive seeds: hx.NewRand(n+1) is hx.NewRand(n) advanced by one step,
+// so neighbouring VERIF_SEEDs would otherwise replay almost the same stream.
+func mixSeed(s uint64) uint64 {
+	z := s + 0x632BE59BD9B4E019
+	z = (z ^ (z >> 30)) * 0xBF58476D1CE4E5B9
+	z = (z ^ (z >> 27)) * 0x94D049BB133111EB
+	return z ^ (z >> 31)
 }
 
 func deltaSexp(td expression.TimeDelta) string {
